@@ -280,6 +280,13 @@ func checkSigParts(sp *sigParts) (string, string) {
 	if !bytes.Equal(sig[:], want) {
 		return "packSig/encoding", fmt.Sprintf("packSig differs from the specification encoding at byte %d", firstDiff(sig[:], want))
 	}
+	// the encoder must produce the same bytes whatever the destination held before
+	for _, fill := range []byte{0xff, 0x01, 0x4b} {
+		dirty := bytes.Repeat([]byte{fill}, dilithium.CryptoBytes)
+		if err := dilithium.VerifPackSigInto(dirty, sp.C, &z, &h); err != nil || !bytes.Equal(dirty, want) {
+			return "packSig/depends-on-destination", fmt.Sprintf("packSig into a buffer pre-filled with %#02x differs from the specification encoding at byte %d (err=%v): stale bytes survive", fill, firstDiff(dirty, want), err)
+		}
+	}
 	c2, z2, h2, rc := dilithium.VerifUnpackSig(sig)
 	if rc != 0 {
 		return "unpackSig/rejects-canonical", "unpackSig rejects a canonical encoding produced by packSig"
@@ -437,8 +444,16 @@ func TestSignatureStrings(t *testing.T) {
 			if total > 75 {
 				total = 75
 			}
-			kind := rapid.SampledFrom([]string{"swap", "duplicate", "padding", "count+1", "count-1", "count-any", "random-position-byte", "z-byte", "count-chain"}).Draw(rt, "edit")
+			kind := rapid.SampledFrom([]string{"swap", "duplicate", "padding", "padding-pair-sum-zero", "count+1", "count-1", "count-any", "random-position-byte", "z-byte", "count-chain"}).Draw(rt, "edit")
 			switch kind {
+			case "padding-pair-sum-zero":
+				// two (or three) non-zero padding bytes whose sum is 0 mod 256
+				if total <= 72 {
+					a := rapid.IntRange(total, 73).Draw(rt, "p1")
+					b := rapid.IntRange(a+1, 74).Draw(rt, "p2")
+					v := byte(rapid.IntRange(1, 255).Draw(rt, "v"))
+					o[offHint+a], o[offHint+b] = v, byte(256-int(v))
+				}
 			case "count-chain":
 				o = pu.HintChain(o, rapid.IntRange(0, 7).Draw(rt, "row"), byte(rapid.IntRange(76, 255).Draw(rt, "v")), rapid.Uint64().Draw(rt, "chain"))
 			case "swap":
